@@ -4,7 +4,8 @@
 From Coq Require Import ZArith List Bool Reals Lia Lra.
 From FT.lib Require Import Num Arr ArrLemmas Lower NumArr.
 From FT.gen Require Import Common Interp2d Interp3d Vinterp2d Vinterp3d FteikCommon Fteik2d Fteik3d Ray2d Ray3d.
-From FT.proofs Require Import SSR InterpR Interp3R VinterpR Vinterp3R TranslateR.
+From FT.model Require Import Api.
+From FT.proofs Require Import SSR InterpR Interp3R VinterpR Vinterp3R TranslateR ApiProofs.
 Import ListNotations.
 Open Scope R_scope.
 
@@ -65,6 +66,18 @@ Theorem C06_omitting_origin_is_zero_origin :
   forall x : arr R, shift_axis 0 x = x.
 Proof. exact @TranslateR.shift_axis_0. Qed.
 
+(* API layer (hand model coq/model/Api.v, tied by harness/corr_api.py run_api): the solver kernel is handed (1/grid, spacing, source - origin), which does not change when origin and source are translated together *)
+Theorem C06_solver_receives_source_minus_origin :
+  forall grid gs o src t : list R,
+       length src = length o ->
+       length o = length t -> solve_args grid gs (zip_add o t) (zip_add src t) = solve_args grid gs o src.
+Proof. exact @ApiProofs.solve_args_origin_invariant. Qed.
+
+(* API layer: the node axes origin + spacing*k of a translated origin are the translated axes *)
+Theorem C06_node_axes_translate :
+  forall (t o d : R) (n : Z), axis_nodes (t + o) d n = map (Rplus t) (axis_nodes o d n).
+Proof. exact @ApiProofs.axis_nodes_translate. Qed.
+
 Print Assumptions C06_axis_shift.
 Print Assumptions C06_searchsorted_commutes_with_translation.
 Print Assumptions C06_interp2d_translate.
@@ -72,3 +85,5 @@ Print Assumptions C06_interp3d_translate.
 Print Assumptions C06_vinterp2d_translate.
 Print Assumptions C06_vinterp3d_translate.
 Print Assumptions C06_omitting_origin_is_zero_origin.
+Print Assumptions C06_solver_receives_source_minus_origin.
+Print Assumptions C06_node_axes_translate.
